@@ -36,6 +36,13 @@ pub trait Reloc: Sized {
     fn op(&mut self, code: u8, arg: u64) -> u64;
     /// an observation of the whole content that does not depend on addresses
     fn observe(&mut self) -> u64;
+    /// true: the old block is scribbled but kept alive until the end, and `old_intact` must hold
+    /// then (a structure that remembers an absolute address *writes* into its old mapping; a
+    /// write into a freed block cannot be confirmed natively, a changed scribble pattern can)
+    const KEEP_OLD: bool = false;
+    unsafe fn old_intact(_old: *const Self) -> bool {
+        true
+    }
 }
 
 pub const NONE: u64 = 0xFFFF_FFFF_0000_0000;
@@ -68,7 +75,9 @@ pub fn relocation<T: Reloc, const K: usize>() {
         // relocate: byte copy to the fresh block, scribble over and free the old one
         core::ptr::copy_nonoverlapping(a as *const u8, b as *mut u8, layout.size());
         core::ptr::write_bytes(a as *mut u8, 0xFF, layout.size());
-        alloc::alloc::dealloc(a as *mut u8, layout);
+        if !T::KEEP_OLD {
+            alloc::alloc::dealloc(a as *mut u8, layout);
+        }
         let mut i = 0;
         while i < K {
             if i >= j {
@@ -79,6 +88,10 @@ pub fn relocation<T: Reloc, const K: usize>() {
             i += 1;
         }
         assert!((*b).observe() == twin.observe(), "c14: content differs after relocation");
+        if T::KEEP_OLD {
+            assert!(T::old_intact(a), "c14: the relocated structure wrote into its old location (absolute address kept)");
+            alloc::alloc::dealloc(a as *mut u8, layout);
+        }
         core::ptr::drop_in_place(b);
         alloc::alloc::dealloc(b as *mut u8, layout);
         core::ptr::drop_in_place(twin as *mut T);
